@@ -236,10 +236,27 @@ def r4_min_max_coherence(ctx):
     ctx.check(R, not problems, node, f, f'"{key}": {defuse.norm(val)[:80]}', f'the "{key}" statistic {", ".join(problems)} (min/max cross-wired)')
   # the reductions of the recorded statistics are over the whole tensor / the non-quantized axes
   mc = ctx.repo.func(f'{shared.NMM}:min_max_calibrate')
-  src = ast.unparse(mc.node)
-  ctx.check(R, 'np.min(tensor_content, axis=None' in src and 'np.max(tensor_content, axis=None' in src, mc.node, mc, 'runtime statistics',
-            'runtime tensor statistics must be the min and max over the whole tensor content')
-  ctx.check(R, 'tensor_content_map[tensor_name]' in src, mc.node, mc, 'content lookup', 'the content must be looked up by the tensor\'s own name')
+  cmap = mc.pos_params[2]
+  seen = 0
+  for f in [mc] + [x for x in mc.module.functions.values() if x.parent is mc]:
+    for n in common.walk_no_nested(f.node):
+      if not (isinstance(n, ast.Assign) and isinstance(n.targets[0], ast.Subscript) and isinstance(n.value, ast.Dict)):
+        continue
+      slots = {k.value: v for k, v in zip(n.value.keys, n.value.values) if isinstance(k, ast.Constant)}
+      if set(slots) != {'min', 'max'}:
+        continue
+      seen += 1
+      key = defuse.norm(inl.inline(f, n.targets[0].slice)).replace('tfl_flatbuffer_utils.', '')
+      for slot, fn in (('min', 'np.min'), ('max', 'np.max')):
+        v = inl.inline(f, slots[slot])
+        ok = isinstance(v, ast.Call) and common.call_name(v) == fn and len(v.args) == 1 and \
+            any(k.arg == 'axis' and isinstance(k.value, ast.Constant) and k.value.value is None for k in v.keywords)
+        ctx.check(R, ok, n, f, slots[slot], 'runtime tensor statistics must be the min and max over the whole tensor content')
+        if ok:
+          content = defuse.norm(v.args[0]).replace('tfl_flatbuffer_utils.', '')
+          ctx.check(R, content == f'{cmap}[{key}]' and key.startswith('get_tensor_name('), n, f, f'{slot}: content {content} filed under {key}',
+                    'the content must be looked up by the name of the very tensor the statistic is filed under')
+  ctx.check(R, seen == 1, mc.node, mc, 'runtime statistics', 'cannot find the {"min","max"} record of min_max_calibrate')
 
 
 def r6_update_purity(ctx):
